@@ -10,7 +10,7 @@ def _clean(v):
     if isinstance(v, float):
         return None
     if isinstance(v, dict):
-        return {k: _clean(x) for k, x in v.items() if _clean(x) is not None or isinstance(x, (dict, list))}
+        return {k: _clean(x) for k, x in v.items() if x is not None and not isinstance(x, float)}
     if isinstance(v, list):
         return [_clean(x) for x in v if not isinstance(x, float)]
     return v
@@ -23,7 +23,7 @@ def pack_ins(evs):
     first_done = None
     for e in evs:
         ev = e["ev"]
-        b = {k: _clean(v) for k, v in e.items() if not isinstance(v, float)}
+        b = {k: _clean(v) for k, v in e.items() if not isinstance(v, float) and v is not None}
         b.pop("criterion", None)
         b.pop("tolerance", None)
         b.pop("digest", None)
